@@ -168,7 +168,28 @@ def run(pid, x, prop=None, tier="quick"):
     return 0
 
 
+def full_pass(only=None):
+    """final record: every seeded change against its own property's check and every other check recorded for it before"""
+    import glob
+    for d in sorted(glob.glob(os.path.join(VERIF, "seeded", "*"))):
+        name = os.path.basename(d)
+        if only and not any(name.startswith(o) for o in only):
+            continue
+        pid, x = name.split("-")
+        meta = json.load(open(os.path.join(d, "meta.json")))
+        if meta.get("neutralised"):
+            print(name, "neutralised (the repaired tree no longer has the code the change edits)")
+            continue
+        props = [pid] + sorted(set(k.split(":")[0] for k in meta.get("checks", {})) - {pid})
+        for prop in props:
+            print("==", name, "checked by", prop, flush=True)
+            run_wt(pid, x, prop)
+    return 0
+
+
 if __name__ == "__main__":
+    if sys.argv[1] == "pass":
+        sys.exit(full_pass(sys.argv[2:]))
     cmd = sys.argv[1]
     if cmd == "confirm":
         sys.exit(confirm(sys.argv[2], sys.argv[3]))
